@@ -273,7 +273,7 @@ BuildC20(d) ==
       cnew == [r \in RIdx(M) |-> IF r = o2 THEN 1 + (ds[42] % 2) ELSE IF r = ((o2 % NR(M)) + 1) THEN (ds[43] % 3) - 1 ELSE 0]
       foreign == <<[base EXCEPT !.k = "model", !.solgiven = FALSE, !.sol = ZeroVec(M), !.passpfba = TRUE],
                    [base EXCEPT !.k = "model", !.stale = TRUE, !.c2 = cnew],
-                   [base EXCEPT !.k = "model", !.stale = TRUE, !.c2 = cnew, !.sol = any, !.fvak = "frame", !.frame = fr]>>
+                   [base EXCEPT !.k = "model", !.stale = TRUE, !.c2 = cnew, !.sol = any, !.fvak = "frame", !.frame = DrawFrame(M, any, ds, 22)]>>
       variants(k, i) ==
         <<[base EXCEPT !.k = k, !.idx = i],
           [base EXCEPT !.k = k, !.idx = i, !.fvak = "frame", !.frame = fr],
